@@ -265,6 +265,7 @@ type backend struct {
 	mechs              []string
 	dataStarted        chan struct{}
 	lastConn           atomic.Pointer[smtp.Conn]
+	nsDelayMs          atomic.Int64 // sched probe: NewSession takes this long (so that a Close can arrive while it runs)
 	logoutDelayMs      atomic.Int64 // sched probe: Logout takes this long (so that overlapping Close calls really overlap)
 }
 
@@ -305,6 +306,9 @@ func (b *backend) NewSession(c *smtp.Conn) (smtp.Session, error) {
 		t = "1"
 	}
 	b.log.add(fmt.Sprintf("NS:%d:%s:%s:%s", id, hx([]byte(c.Hostname())), t, r.String()))
+	if d := b.nsDelayMs.Load(); d > 0 {
+		time.Sleep(time.Duration(d) * time.Millisecond)
+	}
 	if err := r.err(); err != nil {
 		return nil, err
 	}
